@@ -703,6 +703,11 @@ def run_grammar(args):
         wordbreaks = br.choice([DEFAULT_WORDBREAKS, DEFAULT_WORDBREAKS, "", " \t\n"])
         lines = gen_lines(model, beh, br.sub("lines"), nlines)
         readline = br.sub("readline").choice([None, None, None, "ignore-case-on"])
+        if readline and any(bh["kind"] == "dash" for bh in beh.values()):
+            # `dash` plays the candidates -n, -e, -E: the only two items of the universe that differ only by case.  With
+            # completion-ignore-case on, typed `-E` legitimately offers `-e` too (first thorough run with the seam: a false
+            # `unexpected-candidate`), and the oracle is deliberately not made case-aware -- so this pairing is not drawn.
+            readline = None
         comp, recs = run_batch(case["text"], case["name"], beh, lines, wordbreaks, readline=readline)
         out["bash_procs"] += 1
         out["hits"]["readline:" + (readline or "non-interactive-default")] = out["hits"].get("readline:" + (readline or "non-interactive-default"), 0) + 1
